@@ -25,9 +25,12 @@ class Scenario:
 
     def __init__(self, source, signals=(), mode="run", layout=None, default_answer=None, answers=None,
                  fail_at=(), layout_at=None, override_write=True, max_rows=2000, show_vars=False, echo=False,
-                 load=None, repeat_parse=1, render=False, stop_on_err=True, note="", expect=None, abandon=None, pre_layouts=None):
+                 load=None, repeat_parse=1, render=False, stop_on_err=True, note="", expect=None, abandon=None, pre_layouts=None,
+                 pre_digs=None, set_bits=None):
         self.abandon = abandon
         self.pre_layouts = pre_layouts or []
+        self.pre_digs = pre_digs or []       # [(document text, load selector or None)]
+        self.set_bits = set_bits or []       # [(signal name, new width)]
         self.expect = expect or {}
         self.source = source
         self.signals = list(signals)   # (kind, name, bits, default) kind in in/out/bidir; default int|'Z'|None
@@ -78,6 +81,10 @@ class Scenario:
             out.append("ABANDON %d" % self.abandon)
         for lay in getattr(self, "pre_layouts", []):
             out.append("PRE_LAYOUT " + " ".join(_hex(x) for x in lay))
+        for doc, sel in getattr(self, "pre_digs", []):
+            out.append("PRE_DIG %s%s" % (_hex(doc), (" " + sel) if sel else ""))
+        for name, bits in getattr(self, "set_bits", []):
+            out.append("SET_BITS %s %d" % (_hex(name), bits))
         return "\n".join(out) + "\n"
 
     def to_json(self):
@@ -247,7 +254,7 @@ def build(profiles=("dev", "release"), repo=None):
         try:
             base = os.path.join(frontend.CACHE, "replay-bin")
             ds = sorted((os.path.getmtime(os.path.join(base, x)), x) for x in os.listdir(base))
-            for _, x in ds[:-6]:
+            for _, x in ds[:-60]:
                 shutil.rmtree(os.path.join(base, x), ignore_errors=True)
         except OSError:
             pass
@@ -258,6 +265,9 @@ def build(profiles=("dev", "release"), repo=None):
 
 def run(scenario, profiles=("dev", "release"), repo=None, timeout=60):
     bins = build(profiles, repo)
+    if any(not os.path.exists(b) for b in bins.values()):      # pruned by a concurrent run on other trees: build again
+        _built.clear()
+        bins = build(profiles, repo)
     res = {}
     for p in profiles:
         with tempfile.NamedTemporaryFile("w", suffix=".scn", delete=False, dir="/var/tmp") as f:
